@@ -57,6 +57,9 @@ def _rt_class(detail):
 def judge(op, impl, model):
     if impl.startswith("panic"):
         return "reject harness-panic " + impl[:80]
+    if impl.startswith("range-differs"):
+        # a variable-length bound outside the int64 range: the reference (bounds read from the text) refuses, the translator accepted the query
+        return "reject range-bound-out-of-range-accepted " + impl[:200].replace(" ", "_")
     if impl.startswith("lit-differs"):
         # harness/littie.go: a numeric literal of the statement is not written with its value in the SQL text that PostgreSQL gets
         return "reject sql-text-literal-differs-from-statement " + impl[:300].replace(" ", "_")
@@ -116,6 +119,9 @@ def judge(op, impl, model):
 def tie_judge(op, impl, model):
     if impl.startswith("panic"):
         return "reject harness-panic " + impl[:80]
+    if impl.startswith("range-differs"):
+        # a variable-length bound outside the int64 range: the reference (bounds read from the text) refuses, the translator accepted the query
+        return "reject range-bound-out-of-range-accepted " + impl[:200].replace(" ", "_")
     if impl.startswith("lit-differs"):
         # harness/littie.go: a numeric literal of the statement is not written with its value in the SQL text that PostgreSQL gets
         return "reject sql-text-literal-differs-from-statement " + impl[:300].replace(" ", "_")
@@ -279,7 +285,7 @@ SPEC = {
             "statements, one per join order (`S2.Query.trWith km false / true`): which one the translator picks is a selectivity heuristic over its Go syntax tree that scores only "
             "pointer-typed nodes, which the reflection rendering does not determine, so the direction is NOT modelled; the theorems hold for both and the tie accepts either (the "
             "record counts how often the model's own approximation `flipOpt` names the order taken) — and on every generated graph satisfying "
-            "the stage's hypothesis (GraphOK for S1 / S1c / S3a, GraphOK and keyOKb for S1o, GraphOK and scalarKeyB for every returned key for S1d, GraphOK2 and scalarKeyB for every compared key for S2x, GraphOK2 for S2b / S2c / S2n / S2L / S3b) the two evaluators must agree (S2L: the statement's rows must be a sub-bag of min(k, n) rows of the base query's rows). tie 2 (suite c01, SEARCH not proof): the REFERENCE reading of a query does not inherit what the DAWGS frontend listener makes of the text where that can be avoided: the direction of every ORDER BY item is read from the TEXT (harness/sortdir.go: the generated parser alone, an oC_SortItem is descending iff a keyword child spells DESC / DESCENDING in any letter case) and overrides SortItem.Ascending in the S-expression given to Cy.eval, and so are the bounds of every variable-length relationship pattern (rangesFromText: `*` / `*n` = exactly n / `*n..` / `*..m` / `*n..m` from the oC_RangeLiteral of the generated parser's tree), while the translator under test gets the frontend's model unchanged; generators spell the direction in every grammar form (asc / ASCENDING / desc / DESCENDING / mixed case / default). tie 3 (every translated query of suites c01 and c01tie; harness/littie.go): Sql.eval evaluates the statement's syntax TREE, PostgreSQL gets the TEXT written from it — for numbers the two are tied: every numeric value held by a pgsql.Literal of the tree (scalar or array element) must be written in the text as a numeric token that denotes the same number (integers exactly, floating point values as text that float8 input reads back as the same double; string literals are cut out first); otherwise the answer is `lit-differs` and the judge rejects it (key sql-text-literal-differs-from-statement). Pattern property maps given as a PARAMETER (`(a $p)`, `-[r $p]->`): the op line carries the parameter values (p=<hex JSON>), the translator gets them, the reference reads the literal map they stand for, and Sql.eval evaluates `properties @> @pi0::jsonb` with the jsonb value of Result.Parameters (jsonb containment modelled for an object on the right whose values are scalars; other operand forms are `unmodelled`). FOCUSED FAMILIES (harness/focused.go: every spelling of the sort direction in RETURN and WITH, single and mixed keys, with SKIP / LIMIT (family sort-keyword); a parameter property map at every element position of a hop, a chain and several MATCH clauses, next to a second parameter map or a literal map (family param-map: every OTHER element must stay unconstrained); an expansion of exact length in each spelling (`*n`, `*n..n`) next to a proper range, alone, with either endpoint bound by an earlier clause, followed by a fixed hop into a bound or fresh node, as named path / relationship list, and with a PROPERTY MAP written on the variable-length pattern (`*1{..}`, `*2{..}`, `*2..2{..}`, `*1..3{..}`, `*2..3{..}`; literal maps here, `$param` maps in family param-map) in both directions, as named path, inside a pattern predicate, before a fixed hop and into a bound node — every relationship of the walk must carry the map (family exact-range); DOUBLE LITERALS that need more than 32-bit precision (>= 8 significant digits, integral doubles above 2^24 and near 2^53, one float32 step beside a stored 1.5) next to short ones in every literal position — comparison operand (each operator), IN list, arithmetic in WHERE / RETURN / WITH, bare RETURN / WITH item, against node, relationship and id() operands (family double-literal; the reflection rendering's exponent form of a float64 is read as plain decimal by both readers); the BOUNDARY VALUES of LIMIT / SKIP (LIMIT 0, 1, 2^31, 2^63-1; SKIP 0, SKIP beyond every row count) on each shape that triggers a fast path or a lowering that handles the LIMIT itself — aggregate traversal count, count fast path, limit pushdown over a hop / named path / shortest path, ordered projections, WITH (family limit-boundary; the tie families s1 / s1o / s2l draw from the same values); LIMIT without ORDER BY over a non-shortest-path named path whose WHERE holds a quantifier over relationships(p) / nodes(p) that stays in the tail SELECT (family limit-tail-filter);  variable-length step + >= 2 fixed hops with every subset of the suffix nodes already bound, "
+            "the stage's hypothesis (GraphOK for S1 / S1c / S3a, GraphOK and keyOKb for S1o, GraphOK and scalarKeyB for every returned key for S1d, GraphOK2 and scalarKeyB for every compared key for S2x, GraphOK2 for S2b / S2c / S2n / S2L / S3b) the two evaluators must agree (S2L: the statement's rows must be a sub-bag of min(k, n) rows of the base query's rows). tie 2 (suite c01, SEARCH not proof): the REFERENCE reading of a query does not inherit what the DAWGS frontend listener makes of the text where that can be avoided: the direction of every ORDER BY item is read from the TEXT (harness/sortdir.go: the generated parser alone, an oC_SortItem is descending iff a keyword child spells DESC / DESCENDING in any letter case) and overrides SortItem.Ascending in the S-expression given to Cy.eval, and so are the bounds of every variable-length relationship pattern (rangesFromText: `*` / `*n` = exactly n / `*n..` / `*..m` / `*n..m` from the oC_RangeLiteral of the generated parser's tree), while the translator under test gets the frontend's model unchanged; generators spell the direction in every grammar form (asc / ASCENDING / desc / DESCENDING / mixed case / default). a variable-length bound that is an integer literal OUTSIDE the int64 range makes the reference refuse the query (rangesFromTextR); a translator that accepts it has dropped the bound: answer `range-differs`, key range-bound-out-of-range-accepted (family exact-range has bounds at 2^63-1, 2^63 and 10^20). tie 3 (every translated query of suites c01 and c01tie; harness/littie.go): Sql.eval evaluates the statement's syntax TREE, PostgreSQL gets the TEXT written from it — for numbers the two are tied: every numeric value held by a pgsql.Literal of the tree (scalar or array element) must be written in the text as a numeric token that denotes the same number (integers exactly, floating point values as text that float8 input reads back as the same double; string literals are cut out first); otherwise the answer is `lit-differs` and the judge rejects it (key sql-text-literal-differs-from-statement). Pattern property maps given as a PARAMETER (`(a $p)`, `-[r $p]->`): the op line carries the parameter values (p=<hex JSON>), the translator gets them, the reference reads the literal map they stand for, and Sql.eval evaluates `properties @> @pi0::jsonb` with the jsonb value of Result.Parameters (jsonb containment modelled for an object on the right whose values are scalars; other operand forms are `unmodelled`). FOCUSED FAMILIES (harness/focused.go: every spelling of the sort direction in RETURN and WITH, single and mixed keys, with SKIP / LIMIT (family sort-keyword); a parameter property map at every element position of a hop, a chain and several MATCH clauses, next to a second parameter map or a literal map (family param-map: every OTHER element must stay unconstrained); an expansion of exact length in each spelling (`*n`, `*n..n`) next to a proper range, alone, with either endpoint bound by an earlier clause, followed by a fixed hop into a bound or fresh node, as named path / relationship list, and with a PROPERTY MAP written on the variable-length pattern (`*1{..}`, `*2{..}`, `*2..2{..}`, `*1..3{..}`, `*2..3{..}`; literal maps here, `$param` maps in family param-map) in both directions, as named path, inside a pattern predicate, before a fixed hop and into a bound node — every relationship of the walk must carry the map (family exact-range); DOUBLE LITERALS that need more than 32-bit precision (>= 8 significant digits, integral doubles above 2^24 and near 2^53, one float32 step beside a stored 1.5) next to short ones in every literal position — comparison operand (each operator), IN list, arithmetic in WHERE / RETURN / WITH, bare RETURN / WITH item, against node, relationship and id() operands (family double-literal; the reflection rendering's exponent form of a float64 is read as plain decimal by both readers); the BOUNDARY VALUES of LIMIT / SKIP (LIMIT 0, 1, 2^31, 2^63-1; SKIP 0, SKIP beyond every row count) on each shape that triggers a fast path or a lowering that handles the LIMIT itself — aggregate traversal count, count fast path, limit pushdown over a hop / named path / shortest path, ordered projections, WITH (family limit-boundary; the tie families s1 / s1o / s2l draw from the same values); LIMIT without ORDER BY over a non-shortest-path named path whose WHERE holds a quantifier over relationships(p) / nodes(p) that stays in the tail SELECT (family limit-tail-filter);  variable-length step + >= 2 fixed hops with every subset of the suffix nodes already bound, "
             "aggregate-only RETURN incl. collect / size(collect()) with LIMIT and no ORDER BY — one output row, so the LIMIT is deterministic —, aggregate traversal counts, collect membership; a NAMED PATH bound by a MATCH whose own WHERE holds a pattern predicate, over patterns the optimiser reverses, the path / "
             "nodes(p) / relationships(p) / length(p) observed directly and through WITH (path VALUES are compared as ordered node and relationship lists; a result that is the Cypher "
             "result with every path reversed is the symptom class `path-in-reverse-order`, keyed by the enabling query shape); string predicates and equalities whose literal contains "
